@@ -901,7 +901,7 @@ impl<W: Write + io::Seek> ZipWriter<W> {
         }
         self.finish_file()?;
 
-        {
+        let written = (|| -> ZipResult<()> {
             let writer = self.inner.get_plain();
 
             let central_start = writer.stream_position()?;
@@ -947,9 +947,15 @@ impl<W: Write + io::Seek> ZipWriter<W> {
             };
 
             footer.write(writer)?;
+            Ok(())
+        })();
+        if written.is_err() {
+            // Part of a central directory now follows the last entry. A retry (a second `finish`, or
+            // the one in `Drop`) would measure the last entry up to the sink's new position, count
+            // those bytes as its data and vouch for the result.
+            self.inner = GenericZipWriter::Closed;
         }
-
-        Ok(())
+        written
     }
 }
 
